@@ -204,11 +204,15 @@ def elements_thermo(rec, F, cnt):
         ctx = dict(what='elements')
         dgA, cA = tA.getDrivingForce(x, T, precPhase='FCC_L12', removeCache=True)
         dgB, cB = tB.getDrivingForce(xs, T, precPhase='FCC_L12', removeCache=True)
+        n_before = len(F.items)
         if dgA is None or dgB is None:
             perm_close(dgA, dgB, f'driving force at x={pt["x"]} T={T}', F, dict(ctx, q='driving_force'))
         else:
-            perm_close(np.squeeze(dgA), np.squeeze(dgB), f'driving force at x={pt["x"]} T={T}', F, ctx, rtol=1e-7, atol=1e-4)
-            perm_close(np.squeeze(cA), np.squeeze(cB)[::-1], f'precipitate composition from the driving force at x={pt["x"]} T={T}', F, ctx, rtol=1e-6, atol=1e-8)
+            under = bool(float(np.squeeze(dgA)) < 0 and float(np.squeeze(dgB)) < 0)
+            n_before = len(F.items)
+            perm_close(np.squeeze(dgA), np.squeeze(dgB), f'driving force at x={pt["x"]} T={T}', F, dict(ctx, q='driving_force', undersaturated=under), rtol=1e-7, atol=1e-4)
+            if len(F.items) == n_before:
+                perm_close(np.squeeze(cA), np.squeeze(cB)[::-1], f'precipitate composition from the driving force at x={pt["x"]} T={T}', F, dict(ctx, q='driving_force_composition', undersaturated=under), rtol=1e-6, atol=1e-8)
         cnt['compared'] += 2
         DA = tA.getInterdiffusivity(x, T, removeCache=True)
         DB = tB.getInterdiffusivity(xs, T, removeCache=True)
@@ -217,6 +221,11 @@ def elements_thermo(rec, F, cnt):
         trB = np.squeeze(tB.getTracerDiffusivity(xs, T, removeCache=True))
         perm_close(trA, np.array([trB[0], trB[2], trB[1]]), f'tracer diffusivity at x={pt["x"]} T={T}', F, ctx, atol=0)
         cnt['compared'] += 2
+        if dgA is not None and dgB is not None and len(F.items) > n_before:
+            # the two orders already disagree on the driving force (and hence on the search direction the curvature factor is built from):
+            # the curvature comparison at this point would only restate that
+            cnt['skipped_dependent'] = cnt.get('skipped_dependent', 0) + 1
+            continue
         cuA = tA.curvatureFactor(x, T, precPhase='FCC_L12', removeCache=True, computeSearchDir=True)
         cuB = tB.curvatureFactor(xs, T, precPhase='FCC_L12', removeCache=True, computeSearchDir=True)
         if cuA is None or cuB is None:
